@@ -52,7 +52,7 @@ struct Buf {
     bool dead;
 };
 struct View { int buf; size_t off, len; };
-struct Ext { void *p; size_t bytes; bool busy; bool virt; };   // virt: address range only (never dereferenced): buffers of 2^31..2^62 bytes
+struct Ext { void *p; size_t bytes; bool busy; bool virt; int refs; };   // virt: address range only (never dereferenced): buffers of 2^31..2^62 bytes
 
 struct State {
     int nobj, nbuf;
@@ -134,6 +134,8 @@ void drop_ref(int o)
 void ext_free(int slot)
 {
     Ext &e = S.ext[slot];
+    if (e.refs > 1) { e.refs--; return; }     // another descriptor was set on the same memory (do_set, alias)
+    e.refs = 0;
     if (e.p && !e.virt) { if (e.bytes) memset(e.p, 0xDD, e.bytes); free(e.p); }
     e.virt = false;
     e.p = nullptr;
@@ -340,6 +342,10 @@ void do_alloc(int o, size_t nm, size_t sz)
 
 // slot: a free external slot
 bool g_set_virtual;      // the buffer is an address range the harness never dereferences (element numbers beyond 2^31)
+// the caller hands over memory that another descriptor was already set on (two views of one caller-owned buffer, possibly
+// with another element size): allowed by the documentation as long as each descriptor is released or reset, and the
+// only way two *different* descriptors report the same data pointer (found necessary by seeded C14-w7b-1)
+bool g_set_alias;
 void do_set(int o, int slot, size_t nm, size_t sz)
 {
     g_cur_op = "set";
@@ -347,6 +353,8 @@ void do_set(int o, int slot, size_t nm, size_t sz)
     if (g_replay_mode == 1) TRACE("> %s.set(X%d, %s, %s) on %s", on(o), slot, zs(nm).c_str(), zs(sz).c_str(), vs(o).c_str());
     if (o < NMAIN && S.view[o].buf >= 0 && S.view[o].off > 0) { S.nt_realloc = true; CNT("class.set_on_offset_slice"); }
     Ext &e = S.ext[slot];
+    if (g_set_alias) { e.refs++; CNT("class.set_alias_same_memory"); goto have_memory; }
+    e.refs = 1;
     e.bytes = nm * sz;
     e.virt = g_set_virtual;
     if (e.virt) e.p = (void *)((uintptr_t)0x100000000000ull + (uintptr_t)slot * 0x10000000000000ull);   // far from every mapping
@@ -354,6 +362,7 @@ void do_set(int o, int slot, size_t nm, size_t sz)
     e.busy = true;
     if (e.bytes && !e.virt) memset(e.p, 0xEE, e.bytes);
     if (e.virt) CNT("class.set_virtual_huge");
+have_memory:
     op_begin();
     drop_ref(o);
     LIB(cstl_array_set(a, e.p, nm, sz));
@@ -627,7 +636,7 @@ void vf_run(const uint8_t *data, size_t len)
 {
     // nothing survives a case: the library blocks were released by case_reset()
     g_record_events = false;
-    for (int i = 0; i < NEXT; i++) { if (S.ext[i].p && !S.ext[i].virt) free(S.ext[i].p); S.ext[i] = Ext{nullptr, 0, false, false}; }
+    for (int i = 0; i < NEXT; i++) { if (S.ext[i].p && !S.ext[i].virt) free(S.ext[i].p); S.ext[i] = Ext{nullptr, 0, false, false, 0}; }
     S.bufs.clear();
     for (int o = 0; o < NALL; o++) {
         memset(&g_arr[o], 0xDD, sizeof g_arr[o]);
@@ -706,8 +715,16 @@ void vf_run(const uint8_t *data, size_t len)
             if (!g_set_virtual && (u128)nm * sz > EXT_MAX) nm = 0;
             int slot = -1;
             for (int k = 0; k < S.nbuf; k++) { int q = (r2 + k) % S.nbuf; if (!S.ext[q].busy) { slot = q; break; } }
-            if (slot < 0) { CNT("noop.set_no_free_buffer"); TRACE("set noop (all external buffers in use)"); break; }
+            g_set_alias = false;
+            if (slot < 0) {
+                // every buffer of the harness is in use: the new descriptor is set on memory that already has one
+                for (int k = 0; k < S.nbuf; k++) { int q = (r2 + k) % S.nbuf; if (S.ext[q].busy && !S.ext[q].virt && S.ext[q].p) { slot = q; break; } }
+                if (slot < 0 || g_set_virtual) { CNT("noop.set_no_free_buffer"); TRACE("set noop (all external buffers in use)"); g_set_virtual = false; break; }
+                if (sz && (u128)nm * sz > S.ext[slot].bytes) nm = S.ext[slot].bytes / sz;
+                g_set_alias = true;
+            }
             do_set(a, slot, nm, sz);
+            g_set_alias = false;
             g_set_virtual = false;
             break;
         }
